@@ -50,13 +50,15 @@ fn fast_gnp_random_graph_directed(
     for i in 0..num_nodes {
         graph.add_node(Node::from_name(i));
     }
-    let mut w: i32 = -1;
-    let lp = (1.0 - edge_probability).ln();
-    let mut v = 0;
+    // positions are i64: for a small edge_probability one skip can exceed the i32 range
+    let num_nodes = num_nodes as i64;
+    let mut w: i64 = -1;
+    let lp = log_of_complement(edge_probability);
+    let mut v: i64 = 0;
     let mut edges = vec![];
     while v < num_nodes {
         let lr: f64 = (1.0_f64 - rng.gen::<f64>()).ln();
-        w = w + 1 + ((lr / lp) as i32);
+        w = w.saturating_add(1).saturating_add((lr / lp) as i64);
         if v == w {
             w += 1;
         }
@@ -68,7 +70,7 @@ fn fast_gnp_random_graph_directed(
             }
         }
         if v < num_nodes {
-            edges.push((v, w));
+            edges.push((v as i32, w as i32));
         }
     }
     match graph.add_edge_tuples(edges) {
@@ -86,24 +88,35 @@ fn fast_gnp_random_graph_undirected(
     for i in 0..num_nodes {
         graph.add_node(Node::from_name(i));
     }
-    let mut w: i32 = -1;
-    let lp = (1.0 - edge_probability).ln();
-    let mut v = 1;
+    // positions are i64: for a small edge_probability one skip can exceed the i32 range
+    let num_nodes = num_nodes as i64;
+    let mut w: i64 = -1;
+    let lp = log_of_complement(edge_probability);
+    let mut v: i64 = 1;
     let mut edges = vec![];
     while v < num_nodes {
         let lr: f64 = (1.0_f64 - rng.gen::<f64>()).ln();
-        w = w + 1 + ((lr / lp) as i32);
+        w = w.saturating_add(1).saturating_add((lr / lp) as i64);
         while w >= v && v < num_nodes {
             w -= v;
             v += 1;
         }
         if v < num_nodes {
-            edges.push((v, w));
+            edges.push((v as i32, w as i32));
         }
     }
     match graph.add_edge_tuples(edges) {
         Err(e) => Err(e),
         Ok(_) => Ok(graph),
+    }
+}
+
+/// ln(1 - p); for a p so small that 1 - p rounds to 1 this is -p (and never zero).
+fn log_of_complement(p: f64) -> f64 {
+    let lp = (1.0 - p).ln();
+    match lp == 0.0 {
+        true => -p,
+        false => lp,
     }
 }
 
